@@ -281,6 +281,17 @@ pub async fn one_execution(seed: u64) -> Result<ExecOut, String> {
                 *e = (*e).max(n.2);
             }
         }
+        if !violations.is_empty() && std::env::var_os("VH_C14_DEBUG").is_some() {
+            let ro = node.ro().map_err(|e| e.to_string())?;
+            for t in ["p", "c", "g"] {
+                eprintln!("TABLE {t}: {:?}", subs::query_multiset(&ro, &format!("SELECT * FROM {t}")).unwrap_or_default());
+                eprintln!("PKS {t}: {:?}", subs::query_multiset(&ro, &format!("SELECT * FROM {t}__crsql_pks")).unwrap_or_default());
+                eprintln!("CLOCK {t}: {:?}", subs::query_multiset(&ro, &format!("SELECT * FROM {t}__crsql_clock")).unwrap_or_default());
+            }
+            for r in subs::query_multiset(&ro, r#"SELECT "table", hex(pk), cid, val, col_version, db_version, hex(site_id), cl, seq FROM crsql_changes ORDER BY 1,2,3"#).unwrap_or_default() {
+                eprintln!("CHG {r}");
+            }
+        }
         // one report per signature and execution is enough
         let mut seen_sig = BTreeSet::new();
         violations.retain(|(s, _)| seen_sig.insert(s.clone()));
